@@ -1,5 +1,6 @@
 PROP = {
-    "groups": ["guards", "hostile", "handshake", "scanners"],
+    "shared_groups": "also runs the neighbouring groups whose code can break this property: noise (described under C16)",
+    "groups": ["guards", "hostile", "handshake", "scanners", "noise"],
     "gen": ["guards", "Skel_guards.v"],
     "timeout": 600,
     "rule": "guards: the real pipelineRecvBinaryData / recvData / recvPrefixHash / recvConfig / pipelineRecvCurrentAck / "
